@@ -843,7 +843,7 @@ func drawN(t *rapid.T, allowZero bool) int {
 	case k < 97:
 		return rapid.IntRange(2001, 9000).Draw(t, "n")
 	default:
-		return rapid.SampledFrom([]int{65535, 65536, 65537, 70000}).Draw(t, "nbig")
+		return rapid.SampledFrom([]int{65535, 65536, 65537, 70000, 131073, 196609, 262145, 331922, 458753}).Draw(t, "nbig")
 	}
 }
 
